@@ -77,6 +77,13 @@ def run_cases(rec, tier, seed):
         idx = rec.from_array(a, common=common, mapping=mapping, counts=counts)
         if idx is not None:
             way_back(rec, idx, rnd)
+        if counts is not None and rnd.random() < 0.6:
+            # a caller keeps its counts dict and passes the SAME object to another construction of the same data
+            c2 = rnd.choice([None, max(U) + 1, rnd.choice(U)])
+            m2 = mapping if (mapping is None or c2 is None or c2 in mapping) else None
+            idx2 = rec.from_array(a, common=c2, mapping=m2, counts=counts)
+            if idx2 is not None:
+                way_back(rec, idx2, rnd)
     # dtype-boundary values, negatives, zero rows
     for vals in ([255, 256], [65535, 65536], [2 ** 31 - 1, 2 ** 31], [-1, 0, -1, 2], [-129, 127], [2 ** 40, 0],
                  [-(2 ** 40), 5], [2 ** 63 - 1, 0, 2 ** 63 - 1]):
